@@ -567,7 +567,11 @@ fn connack_policy(w: &mut World, conn: usize, clean_start: bool, need_id: bool) 
         rm = w.final_small_rm;
     }
     if let Some(v) = w.force_next_mps.take() {
-        mps = Some(v);
+        // (never on the prompt, conformant broker of the final reconnects: a Maximum Packet Size
+        // of 2 makes every acknowledgement impossible)
+        if !benign {
+            mps = Some(v);
+        }
     }
     if w.cfg.twin_receive_max > 0 {
         rm = Some(w.cfg.twin_receive_max);
@@ -943,7 +947,7 @@ fn on_retained_class(w: &mut World, conn: usize, idx: usize, raw: &[u8], pkt: &P
             .copied()
             .filter(|t| {
                 let r = &w.reqs[w.req_by_tag[t]];
-                unresolved(r) && !r.invalidated
+                unresolved(r) && !r.invalidated && !r.ambiguous
             })
             .collect();
         if !pending.is_empty() {
@@ -1308,6 +1312,29 @@ pub fn on_packet_complete(w: &mut World, conn: usize, idx: usize, t: u64) {
     }
 }
 
+/// An acknowledgement that matches no request of its own kind ("stale", a broker fault) may, by
+/// coincidence, carry the identifier of a live request of *another* kind - e.g. an unsolicited
+/// UNSUBACK 30000 sent when nothing used that identifier, read after a QoS 2 PUBLISH got it. An
+/// acknowledgement of the wrong type for a live identifier is a broker protocol violation that
+/// MQTT does not ask a client to survive (not injected on purpose, DESIGN section 4): what
+/// becomes of that request is left open.
+fn stale_ack_may_hit_live_request(w: &mut World, id: u16) {
+    w.probe("stale_ack_consumed");
+    let ep = w.epoch;
+    let mut hit = false;
+    for r in w.reqs.iter_mut() {
+        if r.epoch == ep && !r.invalidated && r.accept != Accept::NotAccepted && r.id == Some(id) && !matches!(r.phase, Phase::Done(_)) && !r.ambiguous {
+            r.ambiguous = true;
+            hit = true;
+        }
+    }
+    if hit {
+        // outside the fault model: nothing that happens from here on is judged
+        w.probe("wrong_type_ack_for_live_identifier");
+        w.cut = true;
+    }
+}
+
 // ------------------------------------------------------------------ broker -> client consumed
 
 pub fn on_client_consumed(w: &mut World, conn: usize, meta: RxMeta) {
@@ -1416,7 +1443,7 @@ pub fn on_client_consumed(w: &mut World, conn: usize, meta: RxMeta) {
                             w.expect = Some(Expect::Reject(reason));
                         }
                     } else {
-                        w.probe("stale_ack_consumed");
+                        stale_ack_may_hit_live_request(w, id);
                     }
                 }
                 5 => {
@@ -1431,7 +1458,7 @@ pub fn on_client_consumed(w: &mut World, conn: usize, meta: RxMeta) {
                             w.reqs[ri].pubrec_conn = Some(conn);
                         }
                     } else {
-                        w.probe("stale_ack_consumed");
+                        stale_ack_may_hit_live_request(w, id);
                     }
                 }
                 7 => {
@@ -1441,7 +1468,7 @@ pub fn on_client_consumed(w: &mut World, conn: usize, meta: RxMeta) {
                             w.expect = Some(Expect::Reject(reason));
                         }
                     } else {
-                        w.probe("stale_ack_consumed");
+                        stale_ack_may_hit_live_request(w, id);
                     }
                 }
                 _ => {}
@@ -1463,7 +1490,7 @@ pub fn on_client_consumed(w: &mut World, conn: usize, meta: RxMeta) {
                     w.expect = Some(Expect::Reject(b));
                 }
             } else {
-                w.probe("stale_ack_consumed");
+                stale_ack_may_hit_live_request(w, id);
             }
         }
         RxMeta::Publish { bmsg, dup } => {
